@@ -529,6 +529,17 @@ func concGen(seed uint64, i int) concCase {
 	for k := 0; k < n; k++ {
 		cs.Tasks = append(cs.Tasks, concTask(tr, w, cat, typePool))
 	}
+	if tr.Chance(1, 5) {
+		// the builder's owner keeps adding symbols while others write with the table built from it earlier
+		cs.Tasks = append(cs.Tasks, drive.CTask{Kind: "builder", Count: tr.Range(3, 40)})
+		for k := tr.Range(1, 2); k > 0; k-- {
+			if tr.Bool() {
+				cs.Tasks = append(cs.Tasks, drive.CTask{Kind: "marshal", Writer: "binary-built", Type: tr.Intn(3), ValSeed: tr.Uint64(), Count: tr.Range(1, 4)})
+			} else {
+				cs.Tasks = append(cs.Tasks, drive.CTask{Kind: "encode", Writer: "binary-built", Type: tr.Intn(3), ValSeed: tr.Uint64(), Count: tr.Range(1, 3)})
+			}
+		}
+	}
 	return cs
 }
 
